@@ -51,8 +51,9 @@ def decoded_operands(X, mnemonic, prefix):
     return me.arg
 
 
-def rendered_operand_count(X, mnemonic, args):
-    """How many operands x86_mn.__str__ keeps for a string mnemonic whose operand dictionaries are `args` (the elision statements evaluated)."""
+def rendered_operands(X, mnemonic, args):
+    """The operand dictionaries x86_mn.__str__ goes on to print for a string mnemonic whose decoded operands are `args`: the statements that
+    elide / reorder them (those that assign args[0:2] and their elif arms) are executed as written."""
     strm = X.arch.method('x86_mn', '__str__')
     me, m = Obj('self'), Obj('m')
     m.name = mnemonic
@@ -68,13 +69,16 @@ def rendered_operand_count(X, mnemonic, args):
                 ev.env['default_ds'] = ev.ev(st.value)
             if isinstance(st, ast.If) and any(isinstance(x, ast.Assign) and u(x.targets[0]) == 'args[0:2]' for x in st.body):
                 seen += 1
-                if ev.ev(st.test):
-                    ev.env['args'][0:2] = []
+                ev.exec_stmt(st, ev.env)
         except NotConst as e:
             raise AnalysisError('__str__: operand elision `%s` not evaluable: %s' % (u(st)[:60], e))
     if seen < 2:
         raise AnalysisError('__str__: the two statements eliding the operands of string instructions were not found')
-    return len(ev.env['args'])
+    return list(ev.env['args'])
+
+
+def rendered_operand_count(X, mnemonic, args):
+    return len(rendered_operands(X, mnemonic, args))
 
 
 def normalized(X, mnemonic, args):
